@@ -179,724 +179,684 @@ u16 Note
   // c130b
 , } // c132
 ")).
-Eval vm_compute in ("<<<M1737>>>" ++ check (runes_of_ascii "
-options {StringPrefixLenType
-	=	u16	;
-    ArrayPrefixLenType
-	=
-	u16
-;
-
-    }
-	packet 
-SampleBinary {
-	uint16 
-MsgType
-`" ++ [28040; 24687; 31867; 22411]%N ++ runes_of_ascii "`,
-u16 BodyLenght @lengthOf(Body ) `" ++ [28040; 24687; 20307; 38271; 24230]%N ++ runes_of_ascii "`  ,
-match 
-MsgType
-	as 
-Body
-{ 1
-: Logon
-    , 2
-:Logout
-	,3
-    :
-Heartbeat
-,	4 : 
-RiskControlRequest , 5	:RiskControlResponse
-	,} 
-,	@calculatedFrom(
-    ""CRC32""
-)
-u32
-    Ckecksum`" ++ [26657; 39564; 21644]%N ++ runes_of_ascii "` ,
-    }packet Logon
-
-{
-@leftPad
-	(
-	'0'
-
-)char[
-	10
-    ] UserName`" ++ [29992; 25143; 21517]%N ++ runes_of_ascii "`
-
-,
-
-    string
-    Password  `" ++ [23494; 30721]%N ++ runes_of_ascii "`
-, uint64	ClientId	`" ++ [23458; 25143; 31471]%N ++ runes_of_ascii "ID` ,u16
-HeartbeatInterval  `" ++ [24515; 36339; 38388; 38548]%N ++ runes_of_ascii "`
-    , } packet
-    Logout {  @rightPad ( '0'
-) char[ 
-10 ] UserName
-`" ++ [29992; 25143; 21517]%N ++ runes_of_ascii "`	,uint64 
-ClientId `" ++ [23458; 25143; 31471]%N ++ runes_of_ascii "ID` , }
-
-    packet 
-Heartbeat
-
-    { } packet RiskControlRequest {
-string  UniqueOrderId  `" ++ [21807; 19968; 35746; 21333; 21495]%N ++ runes_of_ascii "` , char[
-16
-    ]
-
-ClOrdID`" ++ [23458; 25143; 35746; 21333; 21495]%N ++ runes_of_ascii "`
-, char[3
-]MarketID
-    `" ++ [24066; 22330]%N ++ runes_of_ascii "id`
-	,char[
-	12
-] SecurityID  `" ++ [35777; 21048; 20195; 30721]%N ++ runes_of_ascii "` ,
-char
-
-    Side	`" ++ [20080; 21334; 26041; 21521]%N ++ runes_of_ascii "` ,
-
-char
-	OrderType `" ++ [35746; 21333; 31867; 22411]%N ++ runes_of_ascii "`,  u64 Price `" ++ [20215; 26684]%N ++ runes_of_ascii "`
-,
-u32 Qty
-`" ++ [25968; 37327]%N ++ runes_of_ascii "`,
-repeat string
-ExtraInfo	`" ++ [38468; 21152; 20449; 24687]%N ++ runes_of_ascii "`,
-repeat
-SubOrder{	char[
-    16]	ClOrdID	`" ++ [23376; 35746; 21333; 21495]%N ++ runes_of_ascii "`
-	,
-	u64	Price
-`" ++ [23376; 35746; 21333; 20215; 26684]%N ++ runes_of_ascii "`
-
-    ,	u32
-	Qty
-`" ++ [23376; 35746; 21333; 25968; 37327]%N ++ runes_of_ascii "` ,
-
+Eval vm_compute in ("<<<M1415>>>" ++ check (runes_of_ascii "options {
+    BodyLength = 3;// " ++ [128512]%N ++ runes_of_ascii " emoji
+    T = ""packet"";
+    // c
+    // trailing space 
+    crc = true;
+    falsey = '\x00';
 }
-    ,
-    }	packet
-RiskControlResponse{	string
 
-    UniqueOrderId  `" ++ [21807; 19968; 35746; 21333; 21495]%N ++ runes_of_ascii "`,i32
-Status `" ++ [29366; 24577]%N ++ runes_of_ascii "`
-,  string Msg`" ++ [32467; 26524; 20449; 24687]%N ++ runes_of_ascii "` 
-,	repeat Detail
+root packet A {
+    @leftPad('0')
+    char[65535] Header `" ++ [233]%N ++ runes_of_ascii "`,
+    @rightPad('0')
+    //
+    a1 @lengthOf(msg_type),
+    @lengthOf(rootA)
+    match _x as stringy {
+        ""CRC32"" : chars,
+        3 : float,
+        255 : asx,
+        10 : tag,
+    },
+    @calculatedFrom(""" ++ [128512]%N ++ runes_of_ascii """)
+    u32 u8x `crlf
+        line`,
+    repeat char[] asx `a\`,
+    @rightPad('0')
+    match f32a as Packet {
+        [
+            255, 007, 00, 4294967296, ""CRC32"",
+            ""1"", ""packet""
+        ] : calculatedFrom,
+        ""packet"" : falsey,
+        ""a\""b"" : body,
+        7 : Packet,
+        // " ++ [128512]%N ++ runes_of_ascii " emoji
+        0123456789 : i64_,
+        // a // b
+        [4294967296, 0123456789] : options1,
+    },
+    crc @lengthOf(Foo),
+    @calculatedFrom(""{,}"")
+    @lengthOf(metadata)
+    @lengthOf(i8i8)
+    int64 options1 @calculatedFrom(""CRC32"") `line1
+        line2`,// @lengthOf(
+}
 
-,} packet
-	Detail {
-string RuleName	`" ++ [35268; 21017; 21517; 31216]%N ++ runes_of_ascii "`, u16
-Code	`" ++ [21407; 22240; 20195; 30721]%N ++ runes_of_ascii "`,
+packet a1 {
+    match lengthOf as x_y_z {
+        ""it's"" : matchKey,
+        10 : Packet,
+        [""abc""] : A,
+        10 : metadata,
+    },
+}
 
-} ")).
-Eval vm_compute in ("<<<M1865>>>" ++ check (runes_of_ascii "
+MetaData body {
+    char string_,
+    char[] x,
+    len Pad,
+    string leftPad,
+}// trailing space")).
+Eval vm_compute in ("<<<M1766>>>" ++ check (runes_of_ascii "root packet metadata {
+    @lengthOf(options1)
+    int32 zchar @calculatedFrom(""// no comment"") `
+        `,
+    repeat calculatedFrom `it's`,//
+    match BodyLength as lengthOf {
+        3 : leftPad,
+    },
+    repeat u128,
+    char[10] chars,// @lengthOf(
+    falsey @calculatedFrom(""x y"") `{ , }`,
+    @tag(42)
+    float64 i64_,
+    u8x @calculatedFrom(""{,}"") `two words`,
+    @lengthOf(T)
+    char[255] pack `it's`,
+    match MetaDataX as i64_ {
+        //
+        """ ++ [28040; 24687]%N ++ runes_of_ascii """ : Header,
+        0 : x_y_z,
+        3 : int,
+        ""abc"" : u8x,
+    },
+}
 
-  packet 
-//
+packet i64_ {
+    @rightPad()
+    /// triple
+    pack {
+        match MetaDataX as trueish {
+            1 : len,
+            00 : falsey,
+            """" : x,
+        },
+    },
+    @tag(1)
+    char[] int @lengthOf(metadata),
+    a1 @lengthOf(calculatedFrom),
+    @tag(7)
+    tag @lengthOf(u),
+    BodyLength @calculatedFrom(""it's"") `say ""hi""`,
+    string msg_type,
+}
 
-// " ++ [27880; 37322]%N ++ runes_of_ascii "
+MetaData Logon {
+    BodyLength _x `it's`,
+    int32 body,
+}
 
-	BodyLength
-
-{repeat
+root packet body {
+}")).
+Eval vm_compute in ("<<<M1368>>>" ++ check (runes_of_ascii "// top
+options
+    // c0
+{ // c1
+LittleEndian =
+    // c3
+true
+    // c4
+; // c5a
+  // c5b
+} // c6
+packet // c7a
+  // c7b
+Logon // c8a
+  // c8b
+{ u8
+    // c10
+x // c11a
+  // c11b
+, // c12
+} // c13a
+  // c13b
+packet // c14a
+  // c14b
+Logout // c15
+{
+    // c16
+u16
+    // c17
+reason
+    // c18
+, // c19a
+  // c19b
+}
+    // c20
+root packet Frame { // c24
+u16 // c25a
+  // c25b
+Kind // c26
+, // c27a
+  // c27b
+u16
+    // c28
+Kind2 // c29a
+  // c29b
+, match Kind
+    // c32
+as // c33
+Body // c34
+{
+    // c35
+1 : // c37
+Logon // c38a
+  // c38b
+,
+    // c39
+[ // c40
+2 , // c42
+3
+    // c43
+, // c44
+4 ] :
+    // c47
+Logout
+    // c48
+, // c49
+100
+    // c50
+:
+    // c51
+Logon // c52a
+  // c52b
+,
+    // c53
+} , match Kind2 // c57a
+  // c57b
+as
+    // c58
+Trailer // c59
+{ // c60
+0 // c61a
+  // c61b
+: // c62
+Logout // c63a
+  // c63b
+,
+    // c64
+} // c65a
+  // c65b
+,
+    // c66
+} // c67
+")).
+Eval vm_compute in ("<<<M298>>>" ++ check (runes_of_ascii "
+options  { } options
+    {  uint8x =
 // @lengthOf(
-  zchar[
-    255
-]
-
-    tag
-
-    `crlf
-line`
-
-,  }
-MetaData
-
-    BodyLength
-    {
-    char[
-65535 ]	//	t
-packetx 
-`" ++ [28040; 24687; 31867; 22411]%N ++ runes_of_ascii "` ,  }options
-
+// " ++ [27880; 37322]%N ++ runes_of_ascii "
+42 uint8x = /// triple
+""abc"" ; //x
+_x='0'
+    }
+    packet u8x
+    { zchar[ 1 ] As
+`crlf
+line`, match metadata as float  { ""packet"" ://
+trueish , } , repeat
+rootA
+, repeat metadata repeatCount// trailing space 
+, @rightPad( // `tick` ""quote"" 'q'
+'0') i64 body `// not a comment`
+, @tag( 1) string string_
+    `line1
+line2` ,
+uint8 u8x`" ++ [28040; 24687; 31867; 22411]%N ++ runes_of_ascii "` ,
+packetx u128,	u tag , repeat Logon zchar
+`` ,  }packet zchar
 {
-metadata = 3
-;  // trailing space 
-
-  }
-	packet  Packet {
-o 
-{	uint16
-
-    Logon ,
+    }	packet	MetaDataX { @lengthOf(
+Packet ) repeatCount  int
+`doc` , @tag(
+7 ) packetx @calculatedFrom( ""a\""b""// c
+) , match msg_type as x { ""\n"" : calculatedFrom }, //x
+@leftPad (// packet A { u8 x, }
+'\x00')@lengthOf( MetaDataX // c
+)
+    // a // b
+    char[007
+] a1`tab	here`, As
+    @calculatedFrom( ""`tick`"") `// not a comment`,} 	 ")).
+Eval vm_compute in ("<<<M1693>>>" ++ check (runes_of_ascii "MetaData len {
+    i8 _x ``,
+    zchar[00] tag,
+    roots u,
+    uint16 repeatCount,
+    msg_type tag,
 }
-    ,
 
-@leftPad
+packet x_y_z {
+    metadata {
+        i8i8 chars,
+        i64 chars,
+    },
+    repeat u16 asx,
+}
+
+packet u8x {
+    @lengthOf(BodyLength)
+    @leftPad()
+    float `
+    `,
+    @calculatedFrom(""// no comment"")
+    float32 chars `// not a comment`,
+    uint32 u128,
+    @tag(0)
+    int16 tag,
+    leftPad msg_type,// trailing space 
+    pack `tab	here`,
+    @lengthOf(repeatCount)
+    zchar[4294967296] len,
+    i32 packetx `tab	here`,
+    calculatedFrom,
+    metadata @calculatedFrom(""// no comment""),
+}
+
+options {
+    // trailing space 
+    options1 = 42;
+    i64_ = char[]
+    falsey = 42// a // b
+    Packet = true;
+}")).
+Eval vm_compute in ("<<<M1561>>>" ++ check (runes_of_ascii "
+//x
+
+root  
+      // " ++ [128512]%N ++ runes_of_ascii " emoji
+    packet 
+// `tick` ""quote"" 'q'
+
+	/// triple
+float { 
+options1
+A ,
+@tag( 42
+) u8x
+{tag//x
+    	@calculatedFrom(""\" ++ [233]%N ++ runes_of_ascii """
+
+    ) 	 // packet A { u8 x, }
+	`tab	here`	, }, int16 
+asx ,@lengthOf(	o) @rightPad
 
     (
-) 
-char[0123456789  ]a1 `" ++ [28040; 24687; 31867; 22411]%N ++ runes_of_ascii "` // a // b
-  ,
+)repeat int
 
-    repeat
-	string
-lengthOf
-`{ , }` 
-,	stringy
-	crc  , @rightPad (' ' )
+/// triple
+		/// triple
 
-u32
-MetaDataX  ,@rightPad
-(	'0'
+Logon
+,  @calculatedFrom(
+	""// no comment"")
+	@leftPad  ( '\x00' 
+) @rightPad
+
+('0'
 )
+    zchar[ 65535	//x
+    	]
+o`
+`
 
-    tag
+, repeat As
+	{ 	 //x
+  repeat
 
-{
-repeat
-	f64
-    tag	`u8 x,`
-,
-}
-//	t
-,	char[ 00 ]
-	uint8x``, match	leftPad as
-    Header	{ """ ++ [233]%N ++ runes_of_ascii "t" ++ [233]%N ++ runes_of_ascii """:	Foo ,[
+uint16
+    o
+	,
+    repeat
+char[ 	 // trailing space 
+1	]  o	,
 
-""\" ++ [233]%N ++ runes_of_ascii """
+    u128
+
+    metadata
+
     , 
-007 , 00 ,
-	10  ,""\" ++ [233]%N ++ runes_of_ascii """
+repeat
+	char[7 ] Header,	}
+,@tag(
+0123456789
 
-]:
-	crc
-
-,
-
-[	1  , 007 , 
-""a\\""	,
-    ""packet""] : //	t
-  	len 	 // packet A { u8 x, }
-    ,10
-: MetaDataX
-    //x
-  // " ++ [128512]%N ++ runes_of_ascii " emoji
-    , } 
-    //	t
-	/// triple
-	  ,
-
-    } packet
-
-    i64_
-
-{  @rightPad	( 
-'\x00'  )
-
-@leftPad()
-
-    i8
-body	@calculatedFrom(
-	""" ++ [233]%N ++ runes_of_ascii "t" ++ [233]%N ++ runes_of_ascii """ )
-    `it's`
-	,}
-
-// @lengthOf(
- 
-")).
-Eval vm_compute in ("<<<M1755>>>" ++ check (runes_of_ascii "packet lengthOf {
-    @tag(65535)
-    @tag(3)
-    @tag(0123456789)
-    options1 @calculatedFrom(""abc""),
-    @rightPad('0')
-    falsey @lengthOf(a1),
-    @lengthOf(Pad)
-    body @calculatedFrom(""packet""),
-}
-
-packet int {
-    string Foo @calculatedFrom(""CRC32""),
-}
-
-root packet uint8x {
-}
-
-root packet len {
-    x_y_z _x,
-    BodyLength rootA,
-    match f32a as Logon {
-        [
-            65535, 00, 4294967296, ""a\""b"", """ ++ [28040; 24687]%N ++ runes_of_ascii """,
-            """ ++ [128512]%N ++ runes_of_ascii """, """", ""abc""
-        ] : roots,
-        [00] : A,
-        [65535, 65535, """"] : pack,
-    },
-    repeat Pad `say ""hi""`,
-    /// triple
-    a1 calculatedFrom,
-    @lengthOf(stringy)
-    char[] As @calculatedFrom(""\" ++ [233]%N ++ runes_of_ascii """),
-    zchar[0123456789] Z9_ @lengthOf(repeatCount) `a\`,
-    repeat string lengthOf,//x
-    u8 falsey @calculatedFrom(""a\\""),
-    @calculatedFrom(""it's"")
-    string calculatedFrom @lengthOf(MetaDataX),
-}")).
-Eval vm_compute in ("<<<M209>>>" ++ check (runes_of_ascii "packet calculatedFrom { // a // b
-string charz
-`two words`
-//	t
-//x
-, } packet stringy {
-@lengthOf(msg_type
-)	crc
-    // " ++ [128512]%N ++ runes_of_ascii " emoji
-    , @leftPad
-(	'0')crc @lengthOf(
-u128 //	t
-) ,@leftPad(
-    ' '
-)match
-x_y_z as
-rootA { [// @lengthOf(
-3 ,255 ] : int
-    ""1"": o ,// a // b
-10:tag
-, // c
-10// " ++ [128512]%N ++ runes_of_ascii " emoji
-: Header
-    ,3 :
-a1,""" ++ [128512]%N ++ runes_of_ascii """ :
-packetx
-    , }
-// packet A { u8 x, }
-// packet A { u8 x, }
-, match
-// " ++ [27880; 37322]%N ++ runes_of_ascii "
-// a // b
-o as x//x
-{  ""a	b"" : u8x ,} ,  @rightPad () repeat
-u packetx
-,
-    T // " ++ [27880; 37322]%N ++ runes_of_ascii "
-,repeat
-Logon ,	T{repeat
-x_y_z , // a // b
-i8 crc
-`two words` ,
-char[] calculatedFrom
-    @calculatedFrom(""x y""
-) , } , roots calculatedFrom,
-@lengthOf(
-asx)  repeat x_y_z{ T
-matchKey, } , }
-options { float
-=char[1 ]
-    ;
-    msg_type // c
-=i8 x =
-//
+)a1
+tag
+    ,float32
+asx
+	, repeat // packet A { u8 x, }
+	  len ``
+    ,	} ")).
+Eval vm_compute in ("<<<M208>>>" ++ check (runes_of_ascii "packet // packet A { u8 x, }
+u8x {}root packet
+    matchKey{
+repeat zchar[ 0123456789 ] // packet A { u8 x, }
+int , char[
 // `tick` ""quote"" 'q'
-zchar[ 7] ; f32a =""\n""}
-")).
-Eval vm_compute in ("<<<M93>>>" ++ check (runes_of_ascii "packet float { char[]
-    u8x
-@lengthOf( roots ) ,
-}MetaData leftPad	{ string
-    // `tick` ""quote"" 'q'
-    a1, }root
-packet // " ++ [27880; 37322]%N ++ runes_of_ascii "
-pack { falsey,
-    /// triple
-    match Logon
-as // " ++ [128512]%N ++ runes_of_ascii " emoji
-trueish
-{""packet""
-    : Foo ,"""" : len, 0123456789: i64_ , ""it's"" : packetx
-    ,
-    255
-    : len
-, }
-    , repeat
-As As `" ++ [233]%N ++ runes_of_ascii "` , @tag( 3  ) uint32 a1
-, repeat  zchar[ 4294967296]
-pack	,@leftPad (' ' )  zchar  @lengthOf( string_ ) `// not a comment` , repeat int ,
-repeat
-i8i8 // " ++ [27880; 37322]%N ++ runes_of_ascii "
-{ u64
-    // a // b
-    tag `say ""hi""`	,u8x , char trueish  , repeat // packet A { u8 x, }
-float32
-    stringy `line1
-line2` ,} ,match o
-as	o { 007  : float },
-// packet A { u8 x, }
-// c
-repeat
-    Pad ,
-// " ++ [27880; 37322]%N ++ runes_of_ascii "
-// trailing space 
-}")).
-Eval vm_compute in ("<<<M154>>>" ++ check (runes_of_ascii "packet BodyLength
-    // a // b
-    {@rightPad (
-'\x00' )
-u8x/// triple
-,  @tag(  007
-) @calculatedFrom( ""packet""	) repeat  uint8x x_y_z, }
-    MetaData A {
-    // packet A { u8 x, }
-    Z9_ // a // b
-f32a ,
-    zchar[ 255// a // b
-]
-    msg_type`say ""hi""` ,char[ 1	]Logon  `tab	here` ,//
-}
-packet uint8x {  @calculatedFrom(
-""" ++ [28040; 24687]%N ++ runes_of_ascii """ )@tag(// `tick` ""quote"" 'q'
-65535)	u32 int
-@lengthOf( u8x )
-`say ""hi""`
-,	@leftPad ( ' ') stringy //
-{
-    string_ A ,
-    char[ 4294967296
-] i8i8 `" ++ [233]%N ++ runes_of_ascii "`	, char[]  Logon
-,
-string
-x_y_z@lengthOf(	Packet ),
-} , zchar[	4294967296 ]
-int	`{ , }` , }
-// trailing space 
-// " ++ [27880; 37322]%N ++ runes_of_ascii "
-packet u8x
-    { }
 // a // b
-")).
-Eval vm_compute in ("<<<M1336>>>" ++ check (runes_of_ascii "options {
-    LittleEndian = false;
-    ArrayPrefixLenType = u8;
-    FixedStringPadFromLeft = true;
-    FixedStringPadChar = '0';
-}
-packet Heartbeat {
-    string lastPx,
-    uint8 Qty,
-    i64 Acct,
-    char[4] Ref,
-}
-packet Fill {
-    uint8 Ref,
-    Heartbeat,
-    f32 OrderId,
-    repeat f32 x,
-}
-root packet Order {
-    zchar[2] OrderId,
-    zchar[2] Acct,
-    zchar[1] Note,
-    zchar[9] Qty,
-    string price,
-    string tag7,
-    u32 x,
-    match x as Body {
-        123 : Fill,
-        112 : Heartbeat,
-    },
-    u32 seqNo @calculatedFrom(""CR\
-C32""),
-}
-")).
-Eval vm_compute in ("<<<M1752>>>" ++ check (runes_of_ascii "root packet lengthOf {
-    char[3] Pad,
-    @rightPad('0')
-    crc `doc`,
-    i32 uint8x,
-    zchar {
-        match Logon as int {
-            [0, """ ++ [233]%N ++ runes_of_ascii "t" ++ [233]%N ++ runes_of_ascii """] : o,
-            ""// no comment"" : len,
-        },
-        asx {
-            //x
-            char[10] u128 @lengthOf(x_y_z) `say ""hi""`,
-        },
-        char[1] A,
-        u chars ``,
-    },
-    repeat matchKey {
-        //x
-        string trueish @calculatedFrom(""a	b""),
-        repeat i8 msg_type `it's`,
-    },/// triple
-}
-
-packet float {
-}")).
-Eval vm_compute in ("<<<M1495>>>" ++ check (runes_of_ascii "options {
-    LittleEndian = true;
-    StringPrefixLenType = u64;
-    ArrayPrefixLenType = u16;
-    FixedStringPadFromLeft = false;
-    FixedStringPadChar = ' ';
-}
-
-packet Logon {
-    zchar[5] Side2,
-}
-
-root packet Logout {
-    repeat i64 Tail,
-    Logon,
-    repeat i16 OrderId,
-    char[] venue,
-    uint64 x,
-    repeat i16 count,
-    u8 Flags,
-    match Flags as Body {
-        25 : Logon,
-    },
-    u16 Qty @calculatedFrom(""CR\
-        C32""),
-}")).
-Eval vm_compute in ("<<<M1325>>>" ++ check (runes_of_ascii "
-options{	LittleEndian  =
-	false	;
-StringPrefixLenType 
-=
-u8
-	;
-ArrayPrefixLenType = u64
-; FixedStringPadFromLeft
-=
-
-false ; 
-FixedStringPadChar = ' ' ;	}
-packet 
-Reject
-
-    {  repeat
-	char[
-
-    4
-
-] seqNo ,
-
-string Px ,
-
+4294967296 ]
+asx `{ , }`
+    ,
+repeat i8i8, repeat Packet { repeat
+    leftPad {	f32 u128
+@lengthOf(As ), body`two words` ,// packet A { u8 x, }
+rootA Pad , } , char[ 00
+] msg_type `tab	here` // " ++ [128512]%N ++ runes_of_ascii " emoji
+,
+    repeat
+    //x
+    i64_ `doc` , zchar x_y_z ,}
+,
 }
 root
-	packet
-	Trade{
-	@rightPad
-( '0'
-    )
-char[  2 ] msgKind
-
-, repeat
-f64 price	,
-    InAcct79
-
-{
-
-    repeat
-Reject, zchar[	7	]OrderId , } 
-,
-    Reject  , 
-}
-")).
-Eval vm_compute in ("<<<M1639>>>" ++ check (runes_of_ascii "packet crc {
-    match trueish as len {
-        42 : uint8x,
-        // " ++ [128512]%N ++ runes_of_ascii " emoji
-        ""1"" : asx,
-        3 : body,
-        [0123456789, ""1""] : u,
-        ""packet"" : o,
-    },
-}
-
-MetaData tag {
-    string o `line1
-        line2`,
-    char[] Header `{ , }`,
-    uint8x Z9_,
-}
-
-MetaData tag {
-    i8 len,
-}
-
-options {
-    // `tick` ""quote"" 'q'
-    /// triple
-    x = 10;
-}")).
-Eval vm_compute in ("<<<M178>>>" ++ check (runes_of_ascii "packet // c
-As
-{@tag( 42
-    )
-    repeat Logon	uint8x
-// " ++ [128512]%N ++ runes_of_ascii " emoji
-//
-``, repeat int32
-    x_y_z ,char[7 // trailing space 
-]	pack , repeat string crc
-/// triple
+packet int {
+repeat f32a {repeat f32a  asx
+`u8 x,` ,} ,@lengthOf(
+// @lengthOf(
+//	t
+msg_type// packet A { u8 x, }
+) body ,
 // c
-`// not a comment`
-, @calculatedFrom(
-    ""`tick`""
-    ) @tag( 1 )match
-    // @lengthOf(
-    chars as
-MetaDataX { 4294967296 : // @lengthOf(
-T ,
-} /// triple
-,
-}
-")).
-Eval vm_compute in ("<<<M1268>>>" ++ check (runes_of_ascii "// top
-packet
-    // c0
-B
-    // c1
-{ // c2
-u8
-    // c3
-a // c4
-, string // c6
-s
-    // c7
-, } root // c10
-packet
-    // c11
-P // c12a
-  // c12b
+//
+Z9_ // c
+zchar `a\` //x
+, } //x")).
+Eval vm_compute in ("<<<M65>>>" ++ check (runes_of_ascii "packet leftPad {
+match A as x {""`tick`""
+    : MetaDataX //
+, [""it's""
+,""\n"" ,
+""" ++ [28040; 24687]%N ++ runes_of_ascii """ ] :
+string_ , 0123456789 : o ,
+[
+""{,}"", ""x y"" ]
+:uint8x	} , char[3	] msg_type// " ++ [128512]%N ++ runes_of_ascii " emoji
+@lengthOf( u
+//	t
+// " ++ [27880; 37322]%N ++ runes_of_ascii "
+)`two words` ,
+    // c
+    repeat
+    int
+// packet A { u8 x, }
+// @lengthOf(
+Foo ,
+@rightPad
+(
+    )
+@rightPad
+( ' ' )
+    Foo charz`{ , }`, }
+MetaData A {
+zchar[
+0 ]A `{ , }`
+    , float32 a1
+    //
+    ,
+    char[]  pack , /// triple
+string body `" ++ [233]%N ++ runes_of_ascii "` , string chars `doc` , int _x`two words`
+,} options { Z9_ =
+    uint16 ; }")).
+Eval vm_compute in ("<<<M334>>>" ++ check (runes_of_ascii "MetaData pack {
+int16 rootA `{ , }` ,
+    //	t
+    int16 // c
+x,// " ++ [27880; 37322]%N ++ runes_of_ascii "
+u32 msg_type,
+    }
+packet i64_
+    {// trailing space 
+@leftPad
+    ( '0') @rightPad ( '\x00' // packet A { u8 x, }
+)
+@lengthOf(options1	)
+    string body @lengthOf( asx) `" ++ [233]%N ++ runes_of_ascii "` ,
+    }
+options { msg_type
+    //	t
+    = 00//
+;} MetaData
+    stringy// c
 {
-    // c13
-u16
-    // c14
+    zchar MetaDataX `line1
+line2` , char[255] len `it's` , f32 pack ,
+    uint16 Foo
+`it's` , int16 i64_`two words` ,
+    // `tick` ""quote"" 'q'
+    }")).
+Eval vm_compute in ("<<<M1563>>>" ++ check (runes_of_ascii "packet 
+rootA  { repeat uint16
+stringy	`" ++ [233]%N ++ runes_of_ascii "`	,
+    body
+	@lengthOf( stringy )
+,	int32
+    matchKey	// " ++ [27880; 37322]%N ++ runes_of_ascii "
+
+,	@lengthOf( roots
+)@calculatedFrom(
+""a\""b"")
+@leftPad (
+    ' ' 
+)i64 leftPad @lengthOf( repeatCount ) 
+`u8 x,`
+
+, //	t
+	f64 len
+@lengthOf(
+	BodyLength  // trailing space 
+)
+
+    `// not a comment`,@rightPad
+	( )
+    @leftPad
+
+(
+
+'0')repeat string
+    len  ,// c
+	char[]
+
+    chars `two words` ,
+} //	t
+ 
+")).
+Eval vm_compute in ("<<<M1259>>>" ++ check (runes_of_ascii "// top
+packet // c0
+B // c1a
+  // c1b
+{ // c2
+u8 // c3a
+  // c3b
+a // c4
+, } // c6
+root // c7a
+  // c7b
+packet // c8a
+  // c8b
+P { // c10
+u8
+    // c11
+K , // c13
+u8 // c14a
+  // c14b
 L // c15a
   // c15b
-@lengthOf( B
-    // c17
-)
+@lengthOf( // c16a
+  // c16b
+Body )
     // c18
-,
-    // c19
-B
-    // c20
-, u8 // c22a
+, match // c20
+K as // c22a
   // c22b
-t
+Body
     // c23
-, // c24
-} ")).
-Eval vm_compute in ("<<<M1583>>>" ++ check (runes_of_ascii "  MetaData
-	BodyLength
-{
-	uint16 leftPad
-`" ++ [233]%N ++ runes_of_ascii "`	// a // b
+{ 1 :
+    // c26
+B // c27
+, }
+    // c29
 ,
-	uint8x asx 
-,
-    len
-
-lengthOf	`// not a comment` ,string uint8x `doc`,
-}options
-
-    { i8i8=
-0 lengthOf=
-
-    0123456789
-;
-	}  packet uint8x
-
-    { @lengthOf( pack)  float64	u8x @lengthOf( asx //x
-    )  ,
-}")).
-Eval vm_compute in ("<<<M1375>>>" ++ check (runes_of_ascii "packet
-    Sub 
-{u8 a	, 
-@calculatedFrom(  ""CRC16""
-
-)
-	i32 SubSum 
-,
+    // c30
 }
-    root
+    // c31
+")).
+Eval vm_compute in ("<<<M1651>>>" ++ check (runes_of_ascii "
 
-packet
-    Frame {
-u16 
-MsgType	,
-u16	BodyLen	@lengthOf(
-    Body) 
-, 
-Sub
-	Body	,
-string
-	note
+  packet
+    A
+    { 
+u8
+
+    a ,
+	}
+    packet
+B
+{	u16
+
+    b
 	,
 
-@calculatedFrom(""CRC16"" )
+}packet
 
-i32	Checksum  ,
-	u8 tail 
-,
-
-}")).
-Eval vm_compute in ("<<<M1514>>>" ++ check (runes_of_ascii "packet Logon {
-    pack _x,
-    Z9_ i8i8 `" ++ [28040; 24687; 31867; 22411]%N ++ runes_of_ascii "`,
+    C  { u32 c
+	, 
 }
 
-options {
-    tag = 4294967296;
-    As = string;
-    rootA = true;
-}
+root	packet  M {	u16
 
-root packet f32a {
-    @leftPad(' ')
-    repeat _x `" ++ [233]%N ++ runes_of_ascii "`,
-    @rightPad()
-    i8i8 len,
-}")).
-Eval vm_compute in ("<<<M1293>>>" ++ check (runes_of_ascii "packet A {
-    u8 a,
-}
-packet B {
-    u16 b,
-}
-root packet P {
-    u8 K1,
-    u8 K2,
-    match K1 as M1 {
-        1 : A,
-    },
-    match K2 as M2 {
-        1 : B,
-    },
-}
+Kc
+
+    ,
+
+u16
+Kb, u16
+Ka	,
+
+    match
+Kc 
+as
+	X
+
+{ 9
+
+    :
+    A, 
+10 
+:
+	B	, }	,	match 
+Kb 
+as 
+Y
+{
+
+2 :
+C 
+, 1
+
+    : A
+, } ,
+match
+Ka as	Z {1 :
+
+    B
+,}
+
+    ,
+
+    A
+	,
+	B
+    ,
+
+C	,}
 ")).
-Eval vm_compute in ("<<<M73>>>" ++ check (runes_of_ascii "root
-    packet As { //
-char	charz @lengthOf( packetx
-) `{ , }`,//
-char[0123456789
-]
-MetaDataX
-// " ++ [27880; 37322]%N ++ runes_of_ascii "
+Eval vm_compute in ("<<<M57>>>" ++ check (runes_of_ascii "packet	tag { }
+packet falsey
+    { string charz @lengthOf(
+    zchar ) ,
+string // trailing space 
+u @calculatedFrom( """ ++ [233]%N ++ runes_of_ascii "t" ++ [233]%N ++ runes_of_ascii """	) `// not a comment`
+, @leftPad( '0' )
+char[] leftPad @calculatedFrom(
+    ""a	b"")`// not a comment` , @calculatedFrom(
+    ""`tick`"" )
+    @lengthOf(roots
+) repeat MetaDataX
+, }
+
+")).
+Eval vm_compute in ("<<<M130>>>" ++ check (runes_of_ascii "packet zchar { @lengthOf( a1
+// " ++ [128512]%N ++ runes_of_ascii " emoji
+//	t
+) i64_ @lengthOf( Header )
+`" ++ [28040; 24687; 31867; 22411]%N ++ runes_of_ascii "`, charz`" ++ [233]%N ++ runes_of_ascii "` , char[007] i64_ , tag  { u16  matchKey // " ++ [27880; 37322]%N ++ runes_of_ascii "
+,match Pad as lengthOf { [""CRC32"" ,	""abc""
+] : Packet
+,	}
+, }
+    , } MetaData body {char[
+    10 ]u128
+    `doc`
+    ,
+/// triple
+//x
+} //x")).
+Eval vm_compute in ("<<<M308>>>" ++ check (runes_of_ascii "options { pack// `tick` ""quote"" 'q'
+= 0123456789
+}
+packet metadata { @leftPad ( ' ' ) stringy
+@lengthOf( _x )
+    , repeat	u8
+int
+    `{ , }` ,
+@leftPad //	t
+('0' ) repeat char msg_type `it's`,
+} MetaData x_y_z { // trailing space 
+}")).
+Eval vm_compute in ("<<<M1429>>>" ++ check (runes_of_ascii "root
+packet
 // `tick` ""quote"" 'q'
-`it's` , zchar[
-    7]o `u8 x,`
-, }")).
+
+  string_
+	{  repeat char[ 00
+
+    ]
+
+    rootA ,  
+  // " ++ [128512]%N ++ runes_of_ascii " emoji
+
+  // " ++ [27880; 37322]%N ++ runes_of_ascii "
+
+  }MetaData u	{i32	options1  ,
+    }
+MetaData rootA { u16
+chars ,
+	/// triple
+	//x
+}
+
+")).
+Eval vm_compute in ("<<<M186>>>" ++ check (runes_of_ascii "root packet packetx	{	char[ 1 ]chars @calculatedFrom(
+""packet"" ) `say ""hi""` ,} options
+    // trailing space 
+    { asx
+    // a // b
+    = 65535 u = float64 repeatCount  =""\" ++ [233]%N ++ runes_of_ascii """}
+")).
+Eval vm_compute in ("<<<M60>>>" ++ check (runes_of_ascii "root packet _x
+{ uint32 trueish @calculatedFrom( ""1"" ) `crlf
+line`
+,  }
+    //
+    packet	Header { repeat u64
+stringy `// not a comment` , float32  msg_type ,}
+")).
 Eval vm_compute in ("<<<M458>>>" ++ check (runes_of_ascii "packet uint8x
 { match pack
     as msg_type	{
@@ -908,33 +868,59 @@ a1
     { } options {packetx
     = '\x00'	; u128= ""a	b""  ; }
 ")).
-Eval vm_compute in ("<<<M451>>>" ++ check (runes_of_ascii "packet uint8x
+Eval vm_compute in ("<<<M476>>>" ++ check (runes_of_ascii "packet uint8x
 { match pack
     as msg_type	{
     0123456789 :	float
 }
-, ,
+,
+} packet //	t
+a1
+    { } } options {packetx
+    = '\x00'	; u128= ""a	b""  ; }
+")).
+Eval vm_compute in ("<<<M397>>>" ++ check (runes_of_ascii "packet {
+uint8x match pack
+    as msg_type	{
+    0123456789 :	float
+}
+,
 } packet //	t
 a1
     { } options {packetx
     = '\x00'	; u128= ""a	b""  ; }
 ")).
-Eval vm_compute in ("<<<M1299>>>" ++ check (runes_of_ascii "packet A {
-    u8 a,
-}
-packet B {
-    u16 b,
-}
-root packet P {
-    u8 K,
-    match K as M {
-        [1, 2] : A,
-        3 : B,
-        7 : A,
-    },
-}
+Eval vm_compute in ("<<<M1241>>>" ++ check (runes_of_ascii "// top
+root
+    // c0
+packet // c1
+P // c2a
+  // c2b
+{ // c3
+char
+    // c4
+c // c5a
+  // c5b
+, // c6a
+  // c6b
+u8
+    // c7
+x // c8
+, // c9
+} // c10
 ")).
-Eval vm_compute in ("<<<M522>>>" ++ check (runes_of_ascii "packet uint8x
+Eval vm_compute in ("<<<M408>>>" ++ check (runes_of_ascii "packet uint8x
+{ i8 pack
+    as msg_type	{
+    0123456789 :	float
+}
+,
+} packet //	t
+a1
+    { } options {packetx
+    = '\x00'	; u128= ""a	b""  ; }
+")).
+Eval vm_compute in ("<<<M395>>>" ++ check (runes_of_ascii "packet 
 { match pack
     as msg_type	{
     0123456789 :	float
@@ -943,214 +929,195 @@ Eval vm_compute in ("<<<M522>>>" ++ check (runes_of_ascii "packet uint8x
 } packet //	t
 a1
     { } options {packetx
-    = '\x00'	; u128= ;  ""a	b"" }
+    = '\x00'	; u128= ""a	b""  ; }
 ")).
-Eval vm_compute in ("<<<M700>>>" ++ check (runes_of_ascii "// @lengthOf(
+Eval vm_compute in ("<<<M722>>>" ++ check (runes_of_ascii "// @lengthOf(
 packet i8i8 { u128 o , }
-options { MetaDataX = true true;
-    BodyLength =""packet"" x_y_z= 007
+options { MetaDataX = true;
+    BodyLength =x_y_z ""packet""= 007
 crc //x
 = ""abc"" ;
     msg_type =
 i16 }")).
-Eval vm_compute in ("<<<M687>>>" ++ check (runes_of_ascii "// @lengthOf(
-packet i8i8 { u128 o , , }
-options { MetaDataX = true;
-    BodyLength =""packet"" x_y_z= 007
-crc //x
-= ""abc"" ;
-    msg_type =
-i16 }")).
-Eval vm_compute in ("<<<M685>>>" ++ check (runes_of_ascii "// @lengthOf(
-packet i8i8 { u128 o , }
-options { MetaDataX = true;
-    BodyLength =""packet"" x_y_z= 007
-crc //x
-= ""abc"" ;
-    = msg_type
-i16 }")).
-Eval vm_compute in ("<<<M430>>>" ++ check (runes_of_ascii "packet uint8x
+Eval vm_compute in ("<<<M329>>>" ++ check (runes_of_ascii "  packet calculatedFrom
+{ uint8x {body `line1
+line2`
+, string crc
+@lengthOf(uint8x// " ++ [128512]%N ++ runes_of_ascii " emoji
+) , char[]As@lengthOf(	Pad )
+    , } , }
+")).
+Eval vm_compute in ("<<<M514>>>" ++ check (runes_of_ascii "packet uint8x
 { match pack
     as msg_type	{
-     :	float
+    0123456789 :	float
 }
 ,
 } packet //	t
 a1
     { } options {packetx
-    = '\x00'	; u128= ""a	b""  ; }
+    = '\x00'	;")).
+Eval vm_compute in ("<<<M1617>>>" ++ check (runes_of_ascii "packet A {
+    u16 len @lengthOf(body) `tab
+    	x`,
+    u32 crc @calculatedFrom(""CRC32"") `tab
+    	x`,
+    string body,
+}")).
+Eval vm_compute in ("<<<M1159>>>" ++ check (runes_of_ascii "MetaData leftPad { chars MetaDataX , } packet repeatCount // c
+{ char[ 255 ] uint8x `" ++ [233]%N ++ runes_of_ascii "` , } MetaData pack { As Foo , }")).
+Eval vm_compute in ("<<<M102>>>" ++ check (runes_of_ascii "packet
+    // " ++ [128512]%N ++ runes_of_ascii " emoji
+    body {match Logon  as _x
+    {
+4294967296
+// a // b
+//x
+:
+_x , """ ++ [28040; 24687]%N ++ runes_of_ascii """
+    : u128
+    ,} , }
 ")).
-Eval vm_compute in ("<<<M1641>>>" ++ check (runes_of_ascii "packet A {
+Eval vm_compute in ("<<<M290>>>" ++ check (runes_of_ascii "options {
+    /// triple
+    asx // " ++ [27880; 37322]%N ++ runes_of_ascii "
+= 3 } MetaData T
+{  f32/// triple
+Pad `u8 x,` , } // `tick` ""quote"" 'q'")).
+Eval vm_compute in ("<<<M909>>>" ++ check (runes_of_ascii "packet A {
+  match k as n {
+    [1, ""bb"", 007, ""d"", 5, ""f"", 7, ""h"", 9, ""j"", 11, ""l""] : B
+    2 : C
+  },
+}")).
+Eval vm_compute in ("<<<M160>>>" ++ check (runes_of_ascii "
+MetaData zchar { roots
+A , char[] falsey `line1
+line2` ,
+// " ++ [128512]%N ++ runes_of_ascii " emoji
+// @lengthOf(
+int crc ,	} //	t")).
+Eval vm_compute in ("<<<M855>>>" ++ check (runes_of_ascii "packet A {
+  match k as n {
+    [""a"", ""bb"", ""c c"", ""d"", ""e"", ""f"", ""g"", ""h""] : B
+    2 : C
+  },
+}")).
+Eval vm_compute in ("<<<M1819>>>" ++ check (runes_of_ascii "packet 
+metadata
+	{
+	u32  // `tick` ""quote"" 'q'
+  Packet `say ""hi""` ,
+// trailing space 
+
+	}")).
+Eval vm_compute in ("<<<M632>>>" ++ check (runes_of_ascii "
+packet
+    asx {match u128 a|s lengthOf
+{
+//	t
+// `tick` ""quote"" 'q'
+255 : x ,
+    } ,	}")).
+Eval vm_compute in ("<<<M1741>>>" ++ check (runes_of_ascii "MetaData crc {
+    Pad T,
+    zchar[0123456789] a1,
+    int8 trueish,
+}
+
+packet float {
+}")).
+Eval vm_compute in ("<<<M1700>>>" ++ check (runes_of_ascii "packet A {
     match k as n {
-        [
-            ""a"", ""bb"", ""c c"", ""d"", ""e"",
-            ""f""
-        ] : B,
+        [1, 007, ""bb"", ""d""] : B,
         2 : C,
     },
 }")).
-Eval vm_compute in ("<<<M1769>>>" ++ check (runes_of_ascii "
+Eval vm_compute in ("<<<M1903>>>" ++ check (runes_of_ascii "// top
+packet body {
+    // c2
+    i32 f32a `{ , }`,// c6
+}// c7
 
-  packet
-
-A
-{ match k  as n 
-{ [
-    ""a""
-	,22
-
-,""c c"" ,	4
-,
-
-    ""e"" , 66 
-,
-	""g""  , 
-8, 
-""i"" ,	10
-, ""k""	] :
-B	2 :	C},
-} ")).
-Eval vm_compute in ("<<<M1143>>>" ++ check (runes_of_ascii "MetaData // c
-leftPad { chars MetaDataX , } packet repeatCount { char[ 255 ] uint8x `" ++ [233]%N ++ runes_of_ascii "` , } MetaData pack { As Foo , }")).
-Eval vm_compute in ("<<<M1175>>>" ++ check (runes_of_ascii "MetaData leftPad { chars MetaDataX , } packet repeatCount { char[ 255 ] uint8x `" ++ [233]%N ++ runes_of_ascii "` , } // c
-MetaData pack { As Foo , }")).
-Eval vm_compute in ("<<<M961>>>" ++ check (runes_of_ascii "packet A {
-    u16 len @lengthOf(body) `tab
-	x`,
-    u32 crc @calculatedFrom(""CRC32"") `tab
-	x`,
-    string body,
+options {
+}// c10")).
+Eval vm_compute in ("<<<M1771>>>" ++ check (runes_of_ascii "packet A {
+    match k as n {
+        [1, 22, 007] : B,
+        2 : C,
+    },
 }")).
-Eval vm_compute in ("<<<M1269>>>" ++ check (runes_of_ascii "  packet	B
-{
-u8 a , 
-string	s
-	,
-    }
-    root
-	packet P
-
-{ u16
-
-L @lengthOf( B ), B
-    , 
-u8  t ,
-}
-")).
-Eval vm_compute in ("<<<M889>>>" ++ check (runes_of_ascii "packet A {
+Eval vm_compute in ("<<<M1587>>>" ++ check (runes_of_ascii "options {
+    charz = ""1""
+    _x = """ ++ [128512]%N ++ runes_of_ascii """
+    u = string;
+    stringy = """ ++ [28040; 24687]%N ++ runes_of_ascii """
+}")).
+Eval vm_compute in ("<<<M1842>>>" ++ check (runes_of_ascii "packet A {
+    B b `
+    x`,
+    B `
+    x`,
+    repeat B bs `
+    x`,
+}")).
+Eval vm_compute in ("<<<M787>>>" ++ check (runes_of_ascii "packet A {
   match k as n {
-    [""a"", ""bb"", 007, ""d"", ""e"", 66, ""g"", ""h"", 9, ""j""] : B
+    [1, 22, 007] : B,
     2 : C
   },
 }")).
-Eval vm_compute in ("<<<M258>>>" ++ check (runes_of_ascii "packet
-    metadata{ u32 // `tick` ""quote"" 'q'
-Packet `say ""hi""`
-,
-    // trailing space 
-    }")).
-Eval vm_compute in ("<<<M863>>>" ++ check (runes_of_ascii "packet A {
-  match k as n {
-    [""a"", ""bb"", 007, ""d"", ""e"", 66, ""g"", ""h""] : B
-    2 : C
-  },
-}")).
-Eval vm_compute in ("<<<M1718>>>" ++ check (runes_of_ascii "packet A {
-    u32 crc @calculatedFrom(""\
-    ""),
-    @calculatedFrom(""\
-    "")
-    u8 y,
-}")).
-Eval vm_compute in ("<<<M856>>>" ++ check (runes_of_ascii "packet A {
-  match k as n {
-    [1, ""bb"", 007, ""d"", 5, ""f"", 7, ""h""] : B,
-    2 : C
-  },
-}")).
-Eval vm_compute in ("<<<M771>>>" ++ check (runes_of_ascii "true @tag( root : repeat @calculatedFrom( match f64 int32 ] { zchar[ packet @lengthOf(")).
-Eval vm_compute in ("<<<M837>>>" ++ check (runes_of_ascii "packet A {
-  match k as n {
-    [""a"", ""bb"", 007, ""d"", ""e"", 66] : B
-    2 : C
-  },
-}")).
-Eval vm_compute in ("<<<M972>>>" ++ check (runes_of_ascii "packet A {
-    u32 crc @calculatedFrom(""\
-""),
-    @calculatedFrom(""\
-"") u8 y,
-}")).
-Eval vm_compute in ("<<<M464>>>" ++ check (runes_of_ascii "packet uint8x
+Eval vm_compute in ("<<<M444>>>" ++ check (runes_of_ascii "packet uint8x
 { match pack
     as msg_type	{
-    0123456789 :	float
-}
-,
-}")).
-Eval vm_compute in ("<<<M808>>>" ++ check (runes_of_ascii "packet A {
+    0123456789 :")).
+Eval vm_compute in ("<<<M776>>>" ++ check (runes_of_ascii "packet A {
   match k as n {
-    [1, 22, ""c c"", 4] : B,
+    [""a""] : B
     2 : C
   },
 }")).
-Eval vm_compute in ("<<<M796>>>" ++ check (runes_of_ascii "packet A {
-  match k as n {
-    [1, 22, ""c c""] : B
-    2 : C
-  },
-}")).
-Eval vm_compute in ("<<<M1843>>>" ++ check (runes_of_ascii "MetaData M {
-    u8 x `a
-    
-    b`,
-    T t `a
-    
-    b`,
-}")).
-Eval vm_compute in ("<<<M812>>>" ++ check (runes_of_ascii "packet A { Inner { match k as n { [1,22,007,4] : B, }, }, }")).
-Eval vm_compute in ("<<<M1093>>>" ++ check (runes_of_ascii "packet A { repeat // a
- B // b
- b // c
- `d` // e
- , }")).
-Eval vm_compute in ("<<<M1217>>>" ++ check (runes_of_ascii "packet body { i32 f32a `{ , }` , } options { // c
-}")).
-Eval vm_compute in ("<<<M1286>>>" ++ check (runes_of_ascii "
-
-  root
-    packet P{ 
-string
-	s
-
-    , }
+Eval vm_compute in ("<<<M1219>>>" ++ check (runes_of_ascii "packet body { i32 f32a `{ , }` , } options { } // c
 ")).
-Eval vm_compute in ("<<<M1066>>>" ++ check (runes_of_ascii "packet A {
-    u8 x,    // c    u8 y,
+Eval vm_compute in ("<<<M1588>>>" ++ check (runes_of_ascii "root 
+packet
+    A
+	{u8 x
+
+    `a
+    b
+  c` , }")).
+Eval vm_compute in ("<<<M47>>>" ++ check (runes_of_ascii "MetaData	lengthOf
+{
+Header o `doc`
+    ,}
+")).
+Eval vm_compute in ("<<<M591>>>" ++ check (runes_of_ascii "
+packet
+    asx {match u128 as lengthOf")).
+Eval vm_compute in ("<<<M197>>>" ++ check (runes_of_ascii "
+options {u8x
+=
+    ""packet"" ;	}
+")).
+Eval vm_compute in ("<<<M1839>>>" ++ check (runes_of_ascii "packet A {
+    // a
+    u8 x,
 }")).
-Eval vm_compute in ("<<<M1092>>>" ++ check (runes_of_ascii "root // a
- packet // b
- A // c
- { }")).
-Eval vm_compute in ("<<<M959>>>" ++ check (runes_of_ascii "packet A {
-    u8 x `tab
-	x`,
+Eval vm_compute in ("<<<M757>>>" ++ check (runes_of_ascii "z>" ++ [65533]%N ++ runes_of_ascii "*" ++ [65533]%N ++ runes_of_ascii "7" ++ [65533; 65533; 65533; 65533]%N ++ runes_of_ascii "+" ++ [65533]%N ++ runes_of_ascii "~" ++ [65533; 0; 65533; 65533]%N ++ runes_of_ascii "c" ++ [1171]%N ++ runes_of_ascii "n" ++ [65533; 65533; 65533; 12; 65533]%N ++ runes_of_ascii "E>K")).
+Eval vm_compute in ("<<<M380>>>" ++ check (runes_of_ascii "root packet	Packet { }
+")).
+Eval vm_compute in ("<<<M1109>>>" ++ check (runes_of_ascii "MetaData tag { // c
 }")).
-Eval vm_compute in ("<<<M923>>>" ++ check (runes_of_ascii "packet A {
-    u8 x `a
-b`,
-}")).
-Eval vm_compute in ("<<<M1882>>>" ++ check (runes_of_ascii "packet calculatedFrom {
-}")).
-Eval vm_compute in ("<<<M747>>>" ++ check (runes_of_ascii "true int16 u16 { f32a")).
-Eval vm_compute in ("<<<M1130>>>" ++ check (runes_of_ascii "MetaData // c
-u { }")).
-Eval vm_compute in ("<<<M1027>>>" ++ check (runes_of_ascii "// c" ++ [8287]%N ++ runes_of_ascii "
+Eval vm_compute in ("<<<M103>>>" ++ check (runes_of_ascii "packet packetx	{ }")).
+Eval vm_compute in ("<<<M1047>>>" ++ check (runes_of_ascii "// c" ++ [8203]%N ++ runes_of_ascii "
 packet A {
 }")).
-Eval vm_compute in ("<<<M1009>>>" ++ check (runes_of_ascii "packet A {
-}// c" ++ [8232]%N)).
-Eval vm_compute in ("<<<M1389>>>" ++ check (runes_of_ascii "packet pack {
-}")).
+Eval vm_compute in ("<<<M1049>>>" ++ check (runes_of_ascii "packet A {
+}// c" ++ [65279]%N)).
+Eval vm_compute in ("<<<M297>>>" ++ check (runes_of_ascii "// " ++ [128512]%N ++ runes_of_ascii " emoji
+
+
+")).
 Eval vm_compute in ("<<<M985>>>" ++ check (runes_of_ascii "// c" ++ [160]%N)).
-Eval vm_compute in ("<<<M727>>>" ++ check (runes_of_ascii "")).
+Eval vm_compute in ("<<<M745>>>" ++ check ([65533]%N ++ runes_of_ascii "1")).
